@@ -148,9 +148,12 @@ inline bool Futex::Awaitable::await_suspend(
   node->id = id;
   node->promise = &handle.promise();
   node->handle = handle;
+  // After add_awaiter the coroutine may be resumed (and this awaitable destroyed)
+  // by a concurrent wake at any time, so take what is needed out of *this first
+  auto on_suspend = ::std::move(_on_suspend);
   auto success = _futex->add_awaiter(node, _expected_value);
-  if (success && _on_suspend) {
-    _on_suspend({id});
+  if (success && on_suspend) {
+    on_suspend({id});
   }
   return success;
 }
